@@ -3,13 +3,13 @@
    For ALL table sizes n, socket pre-states s0, label sequences ls (= every interleaving of the agent's threads with the
    abstract step scheduler) and ALL prefixes (= a SIGKILL anywhere):
      live_in_progress        while the run is in progress the socket is bound and the reported status is the live table
-     final_partial/refuted   a complete run persists its final state - unless a stale snapshot was in flight (F8b/F8c)
-     crash_not_running       after a kill the reported status is never `running`
-     crash_partial/refuted   ... and `finished` only if every step is finished/skipped - unless a snapshot was taken in
-                             the window of F8a;  crash_fixed: no premise for the repaired Scheduler.Status (fx = true)
-     daemon_*                the daemon's Start guard is never "already running"; it reaches its minute guard unless the
-                             kill fell between history Open and the first write (F7a)
-     restartable             after a kill the probe says not running and the bind (after unlink) succeeds *)
+     crash                   after a kill the reported status is never `running`, and `finished` only if every step is
+                             finished or skipped (full statement since fix b9e9fa2; before it: finding F8a)
+     daemon                  after a kill the daemon's Start guard reaches its minute guard: neither "already running" nor an
+                             error (full statement since fix 3aa388e; before it: finding F7a)
+     restartable             after a kill the probe says not running and the bind (after unlink) succeeds
+     final_partial/refuted   a complete run persists its final state - unless a stale snapshot was in flight (F8b/F8c, not
+                             repaired) *)
 From Coq Require Import List Arith Bool PeanoNat Lia.
 Import ListNotations.
 From BD.Status Require Import Model.
@@ -93,18 +93,18 @@ Proof.
   inversion H; subst; simpl; auto.
 Qed.
 
-Lemma recv_snap : forall fx s s', recv s = Some s' -> snap_of fx s' = snap_of fx s.
+Lemma recv_snap : forall s s', recv s = Some s' -> snap_of s' = snap_of s.
 Proof.
-  intros fx s s' H. apply recv_tbl in H. destruct H as (Ht & Hc & He & Hp).
+  intros s s' H. apply recv_tbl in H. destruct H as (Ht & Hc & He & Hp).
   unfold snap_of, ov_of, started. rewrite Ht, Hc, He, Hp. reflexivity.
 Qed.
 
-Lemma recv_ov : forall fx s s', recv s = Some s' -> ov_of fx s' = ov_of fx s.
-Proof. intros fx s s' H. pose proof (recv_snap fx _ _ H) as E. unfold snap_of in E. congruence. Qed.
+Lemma recv_ov : forall s s', recv s = Some s' -> ov_of s' = ov_of s.
+Proof. intros s s' H. pose proof (recv_snap _ _ H) as E. unfold snap_of in E. congruence. Qed.
 
 (* ---- one step of the agent ------------------------------------------------------------------------------ *)
 Ltac astep_cases H :=
-  match type of H with astep _ ?st ?l = Some _ => destruct l; simpl in H end;
+  match type of H with astep ?st ?l = Some _ => destruct l; simpl in H end;
   repeat match type of H with
          | context [match mp ?s with _ => _ end] => destruct (mp s) eqn:?; try discriminate
          | context [match fs ?s with _ => _ end] => destruct (fs s) eqn:?; try discriminate
@@ -117,9 +117,9 @@ Ltac astep_cases H :=
          end;
   inversion H; subst; clear H.
 
-Lemma astep_le : forall fx st l st', astep fx st l = Some st' -> tbl_le (tbl (sc st)) (tbl (sc st')).
+Lemma astep_le : forall st l st', astep st l = Some st' -> tbl_le (tbl (sc st)) (tbl (sc st')).
 Proof.
-  intros fx st l st' H. astep_cases H; simpl; try apply tbl_le_refl.
+  intros st l st' H. astep_cases H; simpl; try apply tbl_le_refl.
   - eapply sstep_le; eauto.
   - match goal with H : recv _ = Some _ |- _ => apply recv_tbl in H; destruct H as (Ht & _) end.
     rewrite Ht. apply tbl_le_refl.
@@ -145,12 +145,12 @@ Definition ovs (st : astate) : list ostatus :=
 
 (* a snapshot that exists after a step existed before it, or was computed by this step from the current state, or pairs an
    overall status read earlier with the current table *)
-Lemma new_snap : forall fx st l st' x,
-  astep fx st l = Some st' -> In x (snaps st') ->
-  In x (snaps st) \/ (computes l = true /\ x = snap_of fx (sc st)) \/
+Lemma new_snap : forall st l st' x,
+  astep st l = Some st' -> In x (snaps st') ->
+  In x (snaps st) \/ (computes l = true /\ x = snap_of (sc st)) \/
   (exists o, In o (ovs st) /\ x = mkSnap o (tbl (sc st))).
 Proof.
-  intros fx st l st' x H Hin. unfold snaps, inflight, ovs in *.
+  intros st l st' x H Hin. unfold snaps, inflight, ovs in *.
   astep_cases H; simpl in *;
     repeat match goal with
            | H : mp _ = _ |- _ => rewrite H in *
@@ -168,11 +168,11 @@ Proof.
   all: right; right; eexists; split; try reflexivity; repeat (rewrite in_app_iff; simpl); auto.
 Qed.
 
-Lemma new_ov : forall fx st l st' o,
-  astep fx st l = Some st' -> In o (ovs st') ->
-  In o (ovs st) \/ (computes l = true /\ o = ov_of fx (sc st)).
+Lemma new_ov : forall st l st' o,
+  astep st l = Some st' -> In o (ovs st') ->
+  In o (ovs st) \/ (computes l = true /\ o = ov_of (sc st)).
 Proof.
-  intros fx st l st' o H Hin. unfold ovs in *.
+  intros st l st' o H Hin. unfold ovs in *.
   astep_cases H; simpl in *;
     repeat match goal with
            | H : fs _ = _ |- _ => rewrite H in *
@@ -192,10 +192,10 @@ Definition Inv1 (st : astate) : Prop := forall x, In x (snaps st) -> tbl_le (s_t
 Lemma Inv1_init : forall n s0, Inv1 (init n s0).
 Proof. intros n s0 x H. cbv in H. destruct H. Qed.
 
-Lemma Inv1_step : forall fx st l st', Inv1 st -> astep fx st l = Some st' -> Inv1 st'.
+Lemma Inv1_step : forall st l st', Inv1 st -> astep st l = Some st' -> Inv1 st'.
 Proof.
-  intros fx st l st' I H x Hx. pose proof (astep_le _ _ _ _ H) as Hle.
-  destruct (new_snap _ _ _ _ _ H Hx) as [Hold|[[_ Hnew]|[o [_ Hnew]]]].
+  intros st l st' I H x Hx. pose proof (astep_le _ _ _ H) as Hle.
+  destruct (new_snap _ _ _ _ H Hx) as [Hold|[[_ Hnew]|[o [_ Hnew]]]].
   - eapply tbl_le_trans; [apply I; exact Hold | exact Hle].
   - subst. simpl. exact Hle.
   - subst. simpl. exact Hle.
@@ -206,39 +206,39 @@ Definition Inv2 (st : astate) : Prop :=
   (forall x, In x (snaps st) -> s_ov x = OSuccess -> all_succeed (s_tbl x) = true) /\
   (forall o, In o (ovs st) -> o = OSuccess -> all_succeed (tbl (sc st)) = true).
 
-Lemma Inv2_step : forall fx st l st',
-  Inv2 st -> (computes l = true -> gap fx (sc st) = false) -> astep fx st l = Some st' -> Inv2 st'.
+Lemma Inv2_step : forall st l st',
+  Inv2 st -> (computes l = true -> gap (sc st) = false) -> astep st l = Some st' -> Inv2 st'.
 Proof.
-  intros fx st l st' [IA IB] Hg H. pose proof (astep_le _ _ _ _ H) as Hle. split.
+  intros st l st' [IA IB] Hg H. pose proof (astep_le _ _ _ H) as Hle. split.
   - intros x Hx Hov.
-    destruct (new_snap _ _ _ _ _ H Hx) as [Hold|[[Hc Hnew]|[o [Ho Hnew]]]].
+    destruct (new_snap _ _ _ _ H Hx) as [Hold|[[Hc Hnew]|[o [Ho Hnew]]]].
     + apply IA; auto.
     + subst. specialize (Hg Hc). unfold gap in Hg. rewrite Hov in Hg.
       simpl. apply negb_false_iff in Hg. exact Hg.
     + subst. simpl in *. apply IB with (o := o); auto.
   - intros o Ho Hov. eapply tbl_le_all_succeed; [exact Hle|].
-    destruct (new_ov _ _ _ _ _ H Ho) as [Hold|[Hc Hnew]].
+    destruct (new_ov _ _ _ _ H Ho) as [Hold|[Hc Hnew]].
     + apply IB with (o := o); auto.
     + rewrite Hnew in Hov. specialize (Hg Hc). unfold gap in Hg. simpl in Hg. rewrite Hov in Hg. apply negb_false_iff in Hg. exact Hg.
 Qed.
 
-Lemma inv12_exec : forall fx ls st st',
-  Inv1 st -> Inv2 st -> no_gap_snapshot fx st ls = true -> exec fx st ls = Some st' -> Inv1 st' /\ Inv2 st'.
+Lemma inv12_exec : forall ls st st',
+  Inv1 st -> Inv2 st -> no_gap_snapshot st ls = true -> exec st ls = Some st' -> Inv1 st' /\ Inv2 st'.
 Proof.
-  intros fx ls; induction ls as [|l r IH]; intros st st' I1 I2 Hng He; simpl in *.
+  intros ls; induction ls as [|l r IH]; intros st st' I1 I2 Hng He; simpl in *.
   - inversion He; subst; auto.
-  - destruct (astep fx st l) as [st1|] eqn:Hs; [|discriminate].
+  - destruct (astep st l) as [st1|] eqn:Hs; [|discriminate].
     apply andb_true_iff in Hng. destruct Hng as [Hh Hr].
     apply IH with (st := st1); auto.
     + eapply Inv1_step; eauto.
     + eapply Inv2_step; eauto. intro Hc. rewrite Hc in Hh. simpl in Hh. apply negb_true_iff in Hh. exact Hh.
 Qed.
 
-Lemma Inv1_exec : forall fx ls st st', Inv1 st -> exec fx st ls = Some st' -> Inv1 st'.
+Lemma Inv1_exec : forall ls st st', Inv1 st -> exec st ls = Some st' -> Inv1 st'.
 Proof.
-  intros fx ls; induction ls as [|l r IH]; intros st st' I1 He; simpl in *.
+  intros ls; induction ls as [|l r IH]; intros st st' I1 He; simpl in *.
   - inversion He; subst; auto.
-  - destruct (astep fx st l) as [st1|] eqn:Hs; [|discriminate]. eapply IH; [|eauto]. eapply Inv1_step; eauto.
+  - destruct (astep st l) as [st1|] eqn:Hs; [|discriminate]. eapply IH; [|eauto]. eapply Inv1_step; eauto.
 Qed.
 
 (* ---- what is reported after a kill ---------------------------------------------------------------------- *)
@@ -257,32 +257,39 @@ Proof. reflexivity. Qed.
 Lemma persisted_in_snaps : forall st s, persisted st = PSnap s -> In s (snaps st).
 Proof.
   unfold persisted, snaps; intros st s H.
-  destruct (orig st).
-  - destruct (last_line (file st)) eqn:E; inversion H; subst. apply last_line_in in E. apply in_app_iff; auto.
+  destruct (if orig st then last_line (file st) else None) as [x|] eqn:E.
+  - inversion H; subst. destruct (orig st); [|discriminate]. apply last_line_in in E. apply in_app_iff; auto.
   - destruct (cfile st) as [l|]; [|discriminate].
-    destruct (last_line l) eqn:E; inversion H; subst. apply last_line_in in E.
+    destruct (last_line l) eqn:E2; inversion H; subst. apply last_line_in in E2.
     apply in_app_iff; right. apply in_app_iff; auto.
 Qed.
 
-(* C08_crash, first half: for every prefix of every execution, the status reported after the kill is not `running` *)
-Theorem crash_not_running : forall fx n s0 ls st,
-  exec fx (init n s0) ls = Some st ->
-  s_ov (fst (report fx n (after_kill st))) <> ORunning.
+(* since 3aa388e the history never makes GetLatestStatus fail *)
+Lemma persisted_no_err : forall st, persisted st <> PErr.
 Proof.
-  intros fx n s0 ls st _. unfold report, reported. rewrite alive_after_kill.
+  intros st. unfold persisted. destruct (if orig st then last_line (file st) else None); [discriminate|].
+  destruct (cfile st) as [l|]; [|discriminate]. destruct (last_line l); discriminate.
+Qed.
+
+(* C08_crash, first half: for every prefix of every execution, the status reported after the kill is not `running` *)
+Theorem crash_not_running : forall n s0 ls st,
+  exec (init n s0) ls = Some st ->
+  s_ov (fst (report n (after_kill st))) <> ORunning.
+Proof.
+  intros n s0 ls st _. unfold report, reported. rewrite alive_after_kill.
   destruct (persisted (after_kill st)); simpl; try congruence. apply correct_not_running.
 Qed.
 
-(* C08_crash, second half, pinned code: ... and is `finished` only if every step is finished or skipped, PROVIDED no
-   snapshot was taken while Scheduler.Status was inside the window of F8a *)
-Theorem crash_partial : forall fx n s0 ls st,
-  exec fx (init n s0) ls = Some st ->
-  no_gap_snapshot fx (init n s0) ls = true ->
-  s_ov (fst (report fx n (after_kill st))) = OSuccess ->
+(* ... and is `finished` only if every step is finished or skipped, provided no snapshot was taken while Scheduler.Status
+   was inside the window of F8a - which, since b9e9fa2, never happens (no_gap below) *)
+Lemma crash_under_no_gap : forall n s0 ls st,
+  exec (init n s0) ls = Some st ->
+  no_gap_snapshot (init n s0) ls = true ->
+  s_ov (fst (report n (after_kill st))) = OSuccess ->
   all_succeed (tbl (sc st)) = true.
 Proof.
-  intros fx n s0 ls st He Hng Hr.
-  destruct (inv12_exec fx ls (init n s0) st) as [I1 I2]; auto.
+  intros n s0 ls st He Hng Hr.
+  destruct (inv12_exec ls (init n s0) st) as [I1 I2]; auto.
   { apply Inv1_init. } { split; intros x H; cbv in H; destruct H. }
   unfold report, reported in Hr. rewrite alive_after_kill, persisted_after_kill in Hr.
   destruct (persisted st) as [| |s] eqn:Hp; simpl in Hr; try discriminate.
@@ -291,38 +298,7 @@ Proof.
   eapply tbl_le_all_succeed; [apply I1; exact Hp | apply (proj1 I2); auto].
 Qed.
 
-(* the full statement is false of the pinned code (fx = false): chain of two steps, kill after the snapshot that follows
-   the first step - the history says `finished`, the second step never started (finding F8a) *)
-Definition f8a_trace : list alabel :=
-  [LOpen; LWriteS0; LBind; LSched AStart; LSched (ALaunch 0); LSched (AEnd 0 true); LSched ADoneSend;
-   LNotify; LCOv; LCTbl; LCAppend].
-
-Theorem crash_refuted : exists ls st,
-  exec false (init 2 SockAbsent) ls = Some st /\
-  s_ov (fst (report false 2 (after_kill st))) = OSuccess /\
-  all_succeed (tbl (sc st)) = false /\
-  map nst (s_tbl (fst (report false 2 (after_kill st)))) = [NSuccess; NNone].
-Proof. exists f8a_trace. eexists. split; [vm_compute; reflexivity|]. vm_compute. auto. Qed.
-
-(* a torn snapshot: the overall status read between two steps, the table copied after the next step was launched *)
-Example torn_snapshot : exists st,
-  exec false (init 2 SockAbsent)
-    [LOpen; LWriteS0; LBind; LSched AStart; LSched (ALaunch 0); LSched (AEnd 0 true); LSched ADoneSend;
-     LNotify; LCOv; LSched (ALaunch 1); LCTbl; LCAppend] = Some st /\
-  s_ov (fst (report false 2 (after_kill st))) = OSuccess /\
-  map nst (s_tbl (fst (report false 2 (after_kill st)))) = [NSuccess; NRunning].
-Proof. eexists. split; [vm_compute; reflexivity|]. vm_compute. auto. Qed.
-
-Example crash_partial_premise_satisfiable :
-  exists ls st, exec false (init 2 SockAbsent) ls = Some st /\ no_gap_snapshot false (init 2 SockAbsent) ls = true /\
-                s_ov (fst (report false 2 (after_kill st))) = OSuccess /\ all_succeed (tbl (sc st)) = true.
-Proof.
-  exists [LOpen; LWriteS0; LBind; LSched AStart; LSched (ALaunch 0); LSched (ALaunch 1); LSched (AEnd 0 true);
-          LSched (AEnd 1 true); LSched ADoneSend; LNotify; LCOv; LCTbl; LCAppend].
-  eexists. split; [vm_compute; reflexivity|]. vm_compute. auto.
-Qed.
-
-(* ---- the repaired Scheduler.Status (fx = true) never is inside the window ------------------------------ *)
+(* ---- Scheduler.Status (since b9e9fa2) never is inside the window --------------------------------------- *)
 Definition flags_ok (s : sched) : Prop :=
   forall x, In x (tbl s) -> is_bad (nst x) = true -> serr s || canc s = true.
 
@@ -357,9 +333,9 @@ Proof.
   unfold flags_ok in *. rewrite Ht, Hc, He. exact F.
 Qed.
 
-Lemma flags_ok_astep : forall fx st l st', flags_ok (sc st) -> astep fx st l = Some st' -> flags_ok (sc st').
+Lemma flags_ok_astep : forall st l st', flags_ok (sc st) -> astep st l = Some st' -> flags_ok (sc st').
 Proof.
-  intros fx st l st' F H. astep_cases H; simpl; auto.
+  intros st l st' F H. astep_cases H; simpl; auto.
   - eapply flags_ok_sstep; eauto.
   - eapply flags_ok_recv; eauto.
 Qed.
@@ -378,7 +354,7 @@ Proof.
   assert (existsb f l = true) by (apply existsb_exists; exists x; auto). congruence.
 Qed.
 
-Lemma no_gap_fixed : forall s, flags_ok s -> gap true s = false.
+Lemma no_gap_fixed : forall s, flags_ok s -> gap s = false.
 Proof.
   intros s F. unfold gap, snap_of, ov_of, overall. simpl.
   destruct (canc s && negb (all_succeed (tbl s))) eqn:E1; simpl; auto.
@@ -395,29 +371,56 @@ Proof.
     destruct (nst x); simpl in *; try discriminate; auto; exfalso; apply diff_false_true; apply F; reflexivity.
 Qed.
 
-Lemma no_gap_snapshot_fixed : forall ls st, flags_ok (sc st) -> no_gap_snapshot true st ls = true.
+Lemma no_gap_snapshot_fixed : forall ls st, flags_ok (sc st) -> no_gap_snapshot st ls = true.
 Proof.
   induction ls as [|l r IH]; intros st F; simpl; auto.
   rewrite (no_gap_fixed _ F). simpl. rewrite orb_true_r. simpl.
-  destruct (astep true st l) eqn:E; auto. apply IH. eapply flags_ok_astep; eauto.
+  destruct (astep st l) eqn:E; auto. apply IH. eapply flags_ok_astep; eauto.
 Qed.
 
-(* C08_crash for the repaired code: no premise *)
-Theorem crash_fixed : forall n s0 ls st,
-  exec true (init n s0) ls = Some st ->
-  s_ov (fst (report true n (after_kill st))) <> ORunning /\
-  (s_ov (fst (report true n (after_kill st))) = OSuccess -> all_succeed (tbl (sc st)) = true).
+(* C08_crash: for every prefix of every execution (= a kill anywhere) the status reported afterwards is not `running`,
+   and is `finished` only if every step is finished or skipped.  No premise. *)
+Theorem crash : forall n s0 ls st,
+  exec (init n s0) ls = Some st ->
+  s_ov (fst (report n (after_kill st))) <> ORunning /\
+  (s_ov (fst (report n (after_kill st))) = OSuccess -> all_succeed (tbl (sc st)) = true).
 Proof.
   intros n s0 ls st He. split.
   - eapply crash_not_running; eauto.
-  - apply crash_partial with (s0 := s0) (ls := ls); auto.
+  - apply crash_under_no_gap with (s0 := s0) (ls := ls); auto.
     apply no_gap_snapshot_fixed. simpl. apply flags_ok_init.
 Qed.
 
-(* the F8a witness is not an execution that reports `finished` under the repaired code *)
-Example crash_fixed_on_witness : exists st,
-  exec true (init 2 SockAbsent) f8a_trace = Some st /\ s_ov (fst (report true 2 (after_kill st))) = OError.
-Proof. eexists. split; vm_compute; reflexivity. Qed.
+(* before fix b9e9fa2 this execution (chain of two steps, kill after the snapshot that follows the first) was the witness of
+   finding F8a: the history said `finished`, the second step never started.  Now the snapshot says `running`, shown as failed. *)
+Definition f8a_trace : list alabel :=
+  [LOpen; LWriteS0; LBind; LSched AStart; LSched (ALaunch 0); LSched (AEnd 0 true); LSched ADoneSend;
+   LNotify; LCOv; LCTbl; LCAppend].
+
+Example f8a_trace_now_failed : exists st,
+  exec (init 2 SockAbsent) f8a_trace = Some st /\ s_ov (fst (report 2 (after_kill st))) = OError /\
+  map nst (s_tbl (fst (report 2 (after_kill st)))) = [NSuccess; NNone].
+Proof. eexists. split; [vm_compute; reflexivity|]. vm_compute. auto. Qed.
+
+(* a torn snapshot (overall status read between two steps, table copied after the next step was launched): before b9e9fa2
+   `finished` with a running step; now `running`, shown as failed *)
+Example torn_snapshot_now_failed : exists st,
+  exec (init 2 SockAbsent)
+    [LOpen; LWriteS0; LBind; LSched AStart; LSched (ALaunch 0); LSched (AEnd 0 true); LSched ADoneSend;
+     LNotify; LCOv; LSched (ALaunch 1); LCTbl; LCAppend] = Some st /\
+  s_ov (fst (report 2 (after_kill st))) = OError /\
+  map nst (s_tbl (fst (report 2 (after_kill st)))) = [NSuccess; NRunning].
+Proof. eexists. split; [vm_compute; reflexivity|]. vm_compute. auto. Qed.
+
+(* the theorem is not vacuous: a kill after the last step's snapshot reports `finished`, and every step is finished *)
+Example crash_nonvacuous :
+  exists ls st, exec (init 2 SockAbsent) ls = Some st /\
+                s_ov (fst (report 2 (after_kill st))) = OSuccess /\ all_succeed (tbl (sc st)) = true.
+Proof.
+  exists [LOpen; LWriteS0; LBind; LSched AStart; LSched (ALaunch 0); LSched (ALaunch 1); LSched (AEnd 0 true);
+          LSched (AEnd 1 true); LSched ADoneSend; LNotify; LCOv; LCTbl; LCAppend].
+  eexists. split; [vm_compute; reflexivity|]. vm_compute. auto.
+Qed.
 
 (* ---- live ------------------------------------------------------------------------------------------------ *)
 Definition in_progress (st : astate) : bool :=
@@ -428,9 +431,9 @@ Definition InvL (st : astate) : Prop :=
   (sph (sc st) <> SInit -> 3 <= mrank (mp st)) /\
   (sph (sc st) <> SReturned -> mrank (mp st) <= 3).
 
-Lemma InvL_step : forall fx st l st', InvL st -> astep fx st l = Some st' -> InvL st'.
+Lemma InvL_step : forall st l st', InvL st -> astep st l = Some st' -> InvL st'.
 Proof.
-  intros fx st l st' (A & B & C) H.
+  intros st l st' (A & B & C) H.
   astep_cases H; unfold InvL; simpl in *;
     repeat match goal with
            | H : mp _ = _ |- _ => rewrite H in *
@@ -449,22 +452,22 @@ Qed.
 Lemma InvL_init : forall n s0, InvL (init n s0).
 Proof. intros; unfold InvL; simpl. repeat split; intros; try lia; congruence. Qed.
 
-Lemma InvL_exec : forall fx ls st st', InvL st -> exec fx st ls = Some st' -> InvL st'.
+Lemma InvL_exec : forall ls st st', InvL st -> exec st ls = Some st' -> InvL st'.
 Proof.
-  intros fx ls; induction ls as [|l r IH]; intros st st' I He; simpl in *.
+  intros ls; induction ls as [|l r IH]; intros st st' I He; simpl in *.
   - inversion He; subst; auto.
-  - destruct (astep fx st l) as [st1|] eqn:Hs; [|discriminate]. eapply IH; [|eauto]. eapply InvL_step; eauto.
+  - destruct (astep st l) as [st1|] eqn:Hs; [|discriminate]. eapply IH; [|eauto]. eapply InvL_step; eauto.
 Qed.
 
 (* C08_live: in every reachable state in which the run is in progress (Schedule has started and not returned), the
    socket is bound and the reported status is `running` with the node table of the current state *)
-Theorem live_in_progress : forall fx n s0 ls st,
-  exec fx (init n s0) ls = Some st ->
+Theorem live_in_progress : forall n s0 ls st,
+  exec (init n s0) ls = Some st ->
   in_progress st = true ->
-  alive st = true /\ report fx n st = (mkSnap ORunning (tbl (sc st)), false).
+  alive st = true /\ report n st = (mkSnap ORunning (tbl (sc st)), false).
 Proof.
-  intros fx n s0 ls st He Hp.
-  pose proof (InvL_exec _ _ _ _ (InvL_init n s0) He) as (A & B & C).
+  intros n s0 ls st He Hp.
+  pose proof (InvL_exec _ _ _ (InvL_init n s0) He) as (A & B & C).
   assert (Hs : sock st = SockLive).
   { apply A. unfold in_progress in Hp. destruct (sph (sc st)) eqn:E; try discriminate.
     - split; [apply B; congruence | assert (mrank (mp st) <= 3) by (apply C; congruence); lia].
@@ -473,13 +476,13 @@ Proof.
 Qed.
 
 (* whenever the socket answers, what is reported is the live table, whatever the history holds *)
-Theorem live_when_bound : forall fx n st,
-  alive st = true -> report fx n st = (mkSnap ORunning (tbl (sc st)), false).
-Proof. intros fx n st H. unfold report, reported. rewrite H. reflexivity. Qed.
+Theorem live_when_bound : forall n st,
+  alive st = true -> report n st = (mkSnap ORunning (tbl (sc st)), false).
+Proof. intros n st H. unfold report, reported. rewrite H. reflexivity. Qed.
 
 Example live_nonvacuous : exists st,
-  exec false (init 2 SockStale) [LOpen; LWriteS0; LBind; LSched AStart; LSched (ALaunch 0); LSched (AEnd 0 true)] = Some st /\
-  in_progress st = true /\ map nst (s_tbl (fst (report false 2 st))) = [NSuccess; NNone] /\ s_ov (fst (report false 2 st)) = ORunning.
+  exec (init 2 SockStale) [LOpen; LWriteS0; LBind; LSched AStart; LSched (ALaunch 0); LSched (AEnd 0 true)] = Some st /\
+  in_progress st = true /\ map nst (s_tbl (fst (report 2 st))) = [NSuccess; NNone] /\ s_ov (fst (report 2 st)) = ORunning.
 Proof. eexists. split; [vm_compute; reflexivity|]. vm_compute. auto. Qed.
 
 (* ---- final ------------------------------------------------------------------------------------------------- *)
@@ -493,24 +496,24 @@ Proof.
   intros s l s' H. sstep_cases H; unfold set_st; simpl; try (left; congruence). right; auto.
 Qed.
 
-Definition cur fx (st : astate) : snap := snap_of fx (sc st).
+Definition cur (st : astate) : snap := snap_of (sc st).
 
-Definition InvF (fx : bool) (st : astate) : Prop :=
+Definition InvF (st : astate) : Prop :=
   (* snapshots still waiting for the writer's lock after Schedule returned are current *)
   (sph (sc st) = SReturned ->
-     (forall s, fs st = FComputed s -> s = cur fx st) /\ (forall s, cp st = CComputed s -> s = cur fx st) /\
-     (forall o, fs st = FOv o -> o = ov_of fx (sc st)) /\ (forall o, cp st = COv o -> o = ov_of fx (sc st))) /\
+     (forall s, fs st = FComputed s -> s = cur st) /\ (forall s, cp st = CComputed s -> s = cur st) /\
+     (forall o, fs st = FOv o -> o = ov_of (sc st)) /\ (forall o, cp st = COv o -> o = ov_of (sc st))) /\
   (4 <= mrank (mp st) -> sph (sc st) = SReturned) /\
   (1 <= mrank (mp st) <= 10 -> orig st = true /\ wclosed st = false) /\
   (mrank (mp st) <= 8 -> cfile st = None) /\
-  (forall s, mp st = MFinalComputed s -> s = cur fx st) /\
-  (5 <= mrank (mp st) <= 10 -> last_line (file st) = Some (cur fx st)) /\
-  (forall s, mp st = MCompactRead s -> s = cur fx st) /\
-  (forall s, mp st = MCompactCreated s -> s = cur fx st) /\
-  (10 <= mrank (mp st) -> cfile st = Some [cur fx st]) /\
+  (forall s, mp st = MFinalComputed s -> s = cur st) /\
+  (5 <= mrank (mp st) <= 10 -> last_line (file st) = Some (cur st)) /\
+  (forall s, mp st = MCompactRead s -> s = cur st) /\
+  (forall s, mp st = MCompactCreated s -> s = cur st) /\
+  (10 <= mrank (mp st) -> cfile st = Some [cur st]) /\
   (11 <= mrank (mp st) -> orig st = false).
 
-Lemma InvF_init : forall fx n s0, InvF fx (init n s0).
+Lemma InvF_init : forall n s0, InvF (init n s0).
 Proof.
   intros. unfold InvF; simpl. repeat split; intros; try lia; try congruence; try discriminate.
 Qed.
@@ -518,10 +521,10 @@ Qed.
 Lemma append_last : forall st s, orig st = true -> wclosed st = false -> last_line (append st s) = Some s.
 Proof. intros st s Ho Hw. unfold append. rewrite Ho, Hw. apply last_line_app. Qed.
 
-Lemma InvF_step : forall fx st l st',
-  InvF fx st -> (l = LSched AReturn -> quiet st = true) -> astep fx st l = Some st' -> InvF fx st'.
+Lemma InvF_step : forall st l st',
+  InvF st -> (l = LSched AReturn -> quiet st = true) -> astep st l = Some st' -> InvF st'.
 Proof.
-  intros fx st l st' (R & P4 & OW & CN & FC & LL & CR & CC & CF & OF) Hq H.
+  intros st l st' (R & P4 & OW & CN & FC & LL & CR & CC & CF & OF) Hq H.
   astep_cases H; unfold InvF, cur in *; simpl in *;
     repeat match goal with
            | H : mp _ = _ |- _ => rewrite H in *
@@ -529,7 +532,7 @@ Proof.
            | H : cp _ = _ |- _ => rewrite H in *
            end; simpl in *.
   all: try (match goal with H : recv _ = Some _ |- _ =>
-              pose proof (recv_snap fx _ _ H) as Hsn; pose proof (recv_ov fx _ _ H) as Hovn;
+              pose proof (recv_snap _ _ H) as Hsn; pose proof (recv_ov _ _ H) as Hovn;
               apply recv_tbl in H; destruct H as (_ & _ & _ & Hph);
               rewrite ?Hsn, ?Hovn, ?Hph in * end).
   all: try (match goal with H : sstep ?s ?a = Some ?s' |- _ =>
@@ -570,24 +573,24 @@ Proof.
                   destruct (R ltac:(assumption)) as (Q1 & Q2 & Q3 & Q4); rewrite (Q4 _ eq_refl); reflexivity].
 Qed.
 
-Lemma InvF_exec : forall fx ls st st',
-  InvF fx st -> quiet_at_return fx st ls = true -> exec fx st ls = Some st' -> InvF fx st'.
+Lemma InvF_exec : forall ls st st',
+  InvF st -> quiet_at_return st ls = true -> exec st ls = Some st' -> InvF st'.
 Proof.
-  intros fx ls; induction ls as [|l r IH]; intros st st' I Hq He; simpl in *.
+  intros ls; induction ls as [|l r IH]; intros st st' I Hq He; simpl in *.
   - inversion He; subst; auto.
-  - destruct (astep fx st l) as [st1|] eqn:Hs; [|discriminate].
+  - destruct (astep st l) as [st1|] eqn:Hs; [|discriminate].
     apply andb_true_iff in Hq. destruct Hq as [Hh Hr].
     eapply IH; [|exact Hr|exact He]. eapply InvF_step; eauto.
     intro E; subst l. exact Hh.
 Qed.
 
-Lemma sock_down_exec : forall fx ls st0 st1,
-  (7 <= mrank (mp st0) -> sock st0 <> SockLive) -> exec fx st0 ls = Some st1 ->
+Lemma sock_down_exec : forall ls st0 st1,
+  (7 <= mrank (mp st0) -> sock st0 <> SockLive) -> exec st0 ls = Some st1 ->
   (7 <= mrank (mp st1) -> sock st1 <> SockLive).
 Proof.
-  intros fx ls; induction ls as [|l r IH]; intros st0 st1 I He; simpl in He.
+  intros ls; induction ls as [|l r IH]; intros st0 st1 I He; simpl in He.
   - inversion He; subst; auto.
-  - destruct (astep fx st0 l) as [st2|] eqn:Hs; [|discriminate]. eapply IH; [|exact He].
+  - destruct (astep st0 l) as [st2|] eqn:Hs; [|discriminate]. eapply IH; [|exact He].
     clear - I Hs. astep_cases Hs; simpl in *;
       repeat match goal with H : mp _ = _ |- _ => rewrite H in * end; simpl in *; intros; try lia; try congruence; auto;
       apply I; lia.
@@ -595,27 +598,27 @@ Qed.
 
 (* C08_final: after a complete run (the writer has been closed) the persisted status is the final state of the run -
    PROVIDED no snapshot computed before Schedule returned was still waiting for the writer's lock at that moment *)
-Theorem final_partial : forall fx n s0 ls st,
-  exec fx (init n s0) ls = Some st ->
-  quiet_at_return fx (init n s0) ls = true ->
+Theorem final_partial : forall n s0 ls st,
+  exec (init n s0) ls = Some st ->
+  quiet_at_return (init n s0) ls = true ->
   mp st = MClosed ->
-  persisted st = PSnap (snap_of fx (sc st)) /\
-  report fx n st = (correct (snap_of fx (sc st)), false).
+  persisted st = PSnap (snap_of (sc st)) /\
+  report n st = (correct (snap_of (sc st)), false).
 Proof.
-  intros fx n s0 ls st He Hq Hm.
-  pose proof (InvF_exec _ _ _ _ (InvF_init fx n s0) Hq He) as (R & P4 & OW & CN & FC & LL & CR & CC & CF & OF).
-  pose proof (InvL_exec _ _ _ _ (InvL_init n s0) He) as (A & B & C).
+  intros n s0 ls st He Hq Hm.
+  pose proof (InvF_exec _ _ _ (InvF_init n s0) Hq He) as (R & P4 & OW & CN & FC & LL & CR & CC & CF & OF).
+  pose proof (InvL_exec _ _ _ (InvL_init n s0) He) as (A & B & C).
   rewrite Hm in *. simpl in *.
   assert (Ho : orig st = false) by (apply OF; lia).
-  assert (Hc : cfile st = Some [cur fx st]) by (apply CF; lia).
-  assert (Hp : persisted st = PSnap (snap_of fx (sc st))).
+  assert (Hc : cfile st = Some [cur st]) by (apply CF; lia).
+  assert (Hp : persisted st = PSnap (snap_of (sc st))).
   { unfold persisted. rewrite Ho, Hc. reflexivity. }
   split; auto.
   unfold report, reported. rewrite Hp.
   destruct (alive st) eqn:Ha; auto.
   (* the socket is not bound any more *)
   exfalso. unfold alive in Ha. destruct (sock st) eqn:E; try discriminate.
-  eapply (sock_down_exec fx ls (init n s0) st); eauto; simpl; try lia. rewrite Hm; simpl; lia.
+  eapply (sock_down_exec ls (init n s0) st); eauto; simpl; try lia. rewrite Hm; simpl; lia.
 Qed.
 
 (* the full statement (no premise) is false: chain of two steps; the "first status" goroutine computes its snapshot while
@@ -628,18 +631,18 @@ Definition f8b_trace : list alabel :=
    LFinalCompute; LFinalAppend; LFsAppend; LFinish; LUnbind; LCompactRead; LCompactCreate; LCompactWrite; LCompactUnlink; LCloseWriter].
 
 Theorem final_refuted : exists ls st,
-  exec false (init 2 SockAbsent) ls = Some st /\ mp st = MClosed /\
-  all_succeed (tbl (sc st)) = true /\ s_ov (snap_of false (sc st)) = OSuccess /\
-  persisted st <> PSnap (snap_of false (sc st)) /\
-  s_ov (fst (report false 2 st)) = OError /\ map nst (s_tbl (fst (report false 2 st))) = [NSuccess; NRunning].
+  exec (init 2 SockAbsent) ls = Some st /\ mp st = MClosed /\
+  all_succeed (tbl (sc st)) = true /\ s_ov (snap_of (sc st)) = OSuccess /\
+  persisted st <> PSnap (snap_of (sc st)) /\
+  s_ov (fst (report 2 st)) = OError /\ map nst (s_tbl (fst (report 2 st))) = [NSuccess; NRunning].
 Proof.
   exists f8b_trace. eexists. split; [vm_compute; reflexivity|]. vm_compute.
   repeat split; auto. intro H; discriminate.
 Qed.
 
 Example final_partial_premise_satisfiable : exists ls st,
-  exec false (init 2 SockAbsent) ls = Some st /\ quiet_at_return false (init 2 SockAbsent) ls = true /\ mp st = MClosed /\
-  s_ov (fst (report false 2 st)) = OSuccess.
+  exec (init 2 SockAbsent) ls = Some st /\ quiet_at_return (init 2 SockAbsent) ls = true /\ mp st = MClosed /\
+  s_ov (fst (report 2 st)) = OSuccess.
 Proof.
   exists [LOpen; LWriteS0; LBind; LSched AStart; LSched (ALaunch 0); LSched (AEnd 0 true); LSched ADoneSend; LNotify; LCOv; LCTbl; LCAppend;
           LSched (ALaunch 1); LFsWake; LFsOv; LFsTbl; LFsAppend;
@@ -649,103 +652,43 @@ Proof.
 Qed.
 
 (* ---- the daemon's Start guard and restart ---------------------------------------------------------------- *)
-Definition InvD (st : astate) : Prop :=
-  (mrank (mp st) = 0 -> orig st = false /\ cfile st = None) /\
-  (1 <= mrank (mp st) <= 10 -> orig st = true /\ wclosed st = false) /\
-  (2 <= mrank (mp st) -> file st <> []) /\
-  (mrank (mp st) = 10 -> exists s, cfile st = Some [s]) /\
-  (11 <= mrank (mp st) -> orig st = false /\ exists s, cfile st = Some [s]).
-
-Lemma append_not_nil : forall st s, orig st = true -> wclosed st = false -> append st s <> [].
-Proof. intros st s Ho Hw. unfold append. rewrite Ho, Hw. destruct (file st); simpl; discriminate. Qed.
-
-Lemma append_keeps : forall st s, file st <> [] -> append st s <> [].
+(* C08_daemon: after a kill anywhere the daemon's Start neither takes the DAG for running nor fails on the history: it reaches
+   its minute guard.  No premise (before fix 3aa388e: only when the kill did not fall between the creation of the history file
+   and its first line - finding F7a). *)
+Theorem daemon : forall n s0 ls st,
+  exec (init n s0) ls = Some st -> job_guard (report n (after_kill st)) = GMinuteGuard.
 Proof.
-  intros st s H. unfold append. destruct (wclosed st); auto. destruct (orig st); auto.
-  destruct (file st); [congruence | simpl; discriminate].
-Qed.
-
-Lemma InvD_step : forall fx st l st', InvD st -> astep fx st l = Some st' -> InvD st'.
-Proof.
-  intros fx st l st' (D0 & D1 & D2 & D3 & D4) H.
-  astep_cases H; unfold InvD; simpl in *;
-    repeat match goal with H : mp _ = _ |- _ => rewrite H in * end; simpl in *.
-  all: try (match goal with E : last_line (file _) = None |- _ =>
-              apply last_line_nil_iff in E; exfalso; apply D2; [lia | exact E] end).
-  all: repeat split; intros; try lia; try discriminate; eauto.
-  all: try solve [apply D0; lia | apply D1; lia | apply D2; lia | apply D3; lia | apply D4; lia].
-  all: try solve [apply append_not_nil; apply D1; lia].
-  all: try solve [apply append_keeps; apply D2; lia].
-  all: try solve [destruct (D3 ltac:(lia)) as [x Hx]; eauto].
-  all: try solve [destruct (D4 ltac:(lia)) as [_ [x Hx]]; eauto].
-Qed.
-
-Lemma InvD_init : forall n s0, InvD (init n s0).
-Proof. intros; unfold InvD; simpl; repeat split; intros; try lia; auto. Qed.
-
-Lemma InvD_exec : forall fx ls st st', InvD st -> exec fx st ls = Some st' -> InvD st'.
-Proof.
-  intros fx ls; induction ls as [|l r IH]; intros st st' I He; simpl in *.
-  - inversion He; subst; auto.
-  - destruct (astep fx st l) as [st1|] eqn:Hs; [|discriminate]. eapply IH; [|eauto]. eapply InvD_step; eauto.
-Qed.
-
-(* after a kill anywhere the daemon never takes the DAG for running; and unless the kill fell between the creation of the
-   history file and its first line (F7a) the status is readable, so Start reaches its minute guard *)
-Theorem daemon_not_running : forall fx n s0 ls st,
-  exec fx (init n s0) ls = Some st -> job_guard (report fx n (after_kill st)) <> GRefusedRunning.
-Proof.
-  intros fx n s0 ls st He. unfold job_guard.
-  destruct (snd (report fx n (after_kill st))); [discriminate|].
-  pose proof (crash_not_running fx n s0 ls st He) as H.
-  destruct (s_ov (fst (report fx n (after_kill st)))); congruence.
-Qed.
-
-Theorem daemon_partial : forall fx n s0 ls st,
-  exec fx (init n s0) ls = Some st -> mp st <> MOpened ->
-  job_guard (report fx n (after_kill st)) = GMinuteGuard.
-Proof.
-  intros fx n s0 ls st He Hm.
-  pose proof (InvD_exec _ _ _ _ (InvD_init n s0) He) as (D0 & D1 & D2 & D3 & D4).
-  pose proof (crash_not_running fx n s0 ls st He) as Hnr.
+  intros n s0 ls st He.
+  pose proof (crash_not_running n s0 ls st He) as Hnr.
   unfold job_guard. unfold report, reported in *. rewrite alive_after_kill, persisted_after_kill in *.
-  assert (Hp : persisted st <> PErr).
-  { unfold persisted. destruct (orig st) eqn:Ho.
-    - destruct (last_line (file st)) eqn:E; [discriminate|].
-      apply last_line_nil_iff in E. exfalso.
-      destruct (Nat.le_gt_cases 2 (mrank (mp st))) as [G|G].
-      + apply D2; auto.
-      + destruct (mrank (mp st)) as [|[|k]] eqn:Er.
-        * destruct (D0 eq_refl) as [X _]. discriminate.
-        * apply Hm. destruct (mp st); simpl in Er; try discriminate; reflexivity.
-        * lia.
-    - destruct (cfile st) as [l|] eqn:Ec; [|discriminate].
-      destruct (Nat.le_gt_cases 11 (mrank (mp st))) as [G|G].
-      + destruct (D4 G) as [_ [x Hx]]. inversion Hx; subst. simpl. discriminate.
-      + destruct (Nat.eq_dec (mrank (mp st)) 0) as [Z|Z].
-        * destruct (D0 Z) as [_ Hc]. discriminate.
-        * destruct D1 as [D1 _]; [lia|]. discriminate. }
+  pose proof (persisted_no_err st) as Hp.
   destruct (persisted st) as [| |s]; simpl in *; try congruence.
   destruct (s_ov (correct s)); try reflexivity. congruence.
 Qed.
 
-Theorem daemon_refuted : exists ls st,
-  exec false (init 2 SockAbsent) ls = Some st /\ job_guard (report false 2 (after_kill st)) = GRefusedErr.
-Proof. exists [LOpen]. eexists. split; vm_compute; reflexivity. Qed.
+(* before fix 3aa388e this was the witness of finding F7a (guard = refused with EOF): kill right after the history file was created *)
+Example daemon_after_open : exists st,
+  exec (init 2 SockAbsent) [LOpen] = Some st /\ mp st = MOpened /\ job_guard (report 2 (after_kill st)) = GMinuteGuard.
+Proof. eexists. split; [vm_compute; reflexivity|]. split; vm_compute; reflexivity. Qed.
 
-Example daemon_partial_premise_satisfiable : exists st,
-  exec false (init 2 SockAbsent) [LOpen; LWriteS0; LBind; LSched AStart; LSched (ALaunch 0)] = Some st /\ mp st <> MOpened /\
-  job_guard (report false 2 (after_kill st)) = GMinuteGuard.
-Proof. eexists. split; [vm_compute; reflexivity|]. split; [simpl; discriminate | vm_compute; reflexivity]. Qed.
+(* a kill inside Close's compaction, between the creation of the twin and its first write: the original (complete) is read,
+   the empty twin would be skipped *)
+Example kill_inside_compaction : exists st,
+  exec (init 1 SockAbsent)
+    [LOpen; LWriteS0; LBind; LSched AStart; LSched (ALaunch 0); LSched (AEnd 0 true); LSched ADoneSend; LNotify; LCOv; LCTbl; LCAppend;
+     LSched AWait; LSched AReturn; LFinalCompute; LFinalAppend; LFinish; LUnbind; LCompactRead; LCompactCreate] = Some st /\
+  cfile st = Some [] /\ orig st = true /\
+  report 1 (after_kill st) = (snap_of (sc st), false) /\ s_ov (snap_of (sc st)) = OSuccess.
+Proof. eexists. split; [vm_compute; reflexivity|]. vm_compute. auto. Qed.
 
 (* C08_restartable: after a kill at any point a new agent's probe says "not running" and its bind - preceded by the unlink of
    sock/server.go:49 - succeeds, whatever the kill left at the socket path *)
-Theorem restartable : forall fx n s0 ls st,
-  exec fx (init n s0) ls = Some st ->
+Theorem restartable : forall n s0 ls st,
+  exec (init n s0) ls = Some st ->
   probe_running (sock (after_kill st)) = false /\ bind_ok true (sock (after_kill st)) = true.
 Proof. intros. unfold after_kill; simpl. destruct (sock st); auto. Qed.
 
 (* ... and the unlink is what makes it so: without it a kill while the socket is bound blocks every later start *)
 Theorem unlink_needed : exists ls st,
-  exec false (init 2 SockAbsent) ls = Some st /\ bind_ok false (sock (after_kill st)) = false.
+  exec (init 2 SockAbsent) ls = Some st /\ bind_ok false (sock (after_kill st)) = false.
 Proof. exists [LOpen; LWriteS0; LBind]. eexists. split; vm_compute; reflexivity. Qed.
